@@ -5,15 +5,20 @@ Theorems about `Model/Store.lean` (the column writes of `store/src/cell.rs`,
 `store/src/transaction.rs` and `chain/src/verify.rs`, in the code's order).  All statements are for
 every view / every block / every chain (induction), under the well-formedness that block
 verification enforces (`Valid`, `ValidChain`, `WellFormed`).  `find_fork` itself (how the node
-computes `det` / `att`) is tied by the correspondence run, not proved here.
+computes `det` / `att` / `dirty_exts`) is modelled in `Model/Fork.lean` and proved correct in the
+last section (`find_fork_lists`, `find_fork_new_main`, `dirty_exts_aligned`); the corollary
+`reorg_via_find_fork_eq_replay` restates `reorg_eq_replay` with the lists computed by `find_fork`.
 
 The epoch-number row (`COLUMN_EPOCH[number]`) is part of the proved view since the repair of
 finding F9 (/repo commit e69f9a7): `attach_block` / `detach_block` maintain it.  The pre-repair
 behaviour is kept as `Store.PreFix` with its regression witness `epoch_number_row_not_replay_prefix`.
-One row is still *not* a function of the main chain in the code as written; the model mirrors the
-code and the witness is kept: `current_epoch_stale_after_truncate` (finding F12).
+The META current-epoch row is a function of the main chain since the repair of finding F12 (/repo
+commit 1f10d03: it is also written when more than one block is attached):
+`current_epoch_follows_main_chain`, `current_epoch_after_truncate_extend`; the pre-repair behaviour
+is kept as `Store.PreF12` with its regression witness `current_epoch_stale_after_truncate_prefix`.
 -/
 import CkbVerif.Lemmas.StoreInv
+import CkbVerif.Lemmas.Reconcile
 namespace CkbVerif.C02
 open CkbVerif.Store
 
@@ -160,14 +165,15 @@ view is the replay of `g :: pre ++ det`, is the replay of `g :: pre ++ att` — 
 every depth, every content of the two branches (re-committed transactions, cells created on the
 detached branch and spent on it, …).  `r'` is the node's record store (it may hold any number of
 side-chain blocks).  `hcur` is the condition under which the code's `if new_epoch ||
-fork.has_detached()` is enough; it always holds without `truncate` (then `det = []` means the block
-extends the tip inside its epoch). -/
+fork.has_detached() || attached.len() > 1` is enough: its last disjunct is needed only for a
+plain extension of the tip by one block inside an epoch, where it is epoch continuity (the block's
+epoch is its parent's) — see `current_epoch_follows_main_chain`, which discharges it. -/
 theorem reorg_eq_replay (g : Block) (pre det att : List Block) (b : Block) (r' : Recs)
     (hwf : WellFormed g (pre ++ det))
     (hlast : att.getLast? = some b)
     (hext : RecsLe (replay (g :: (pre ++ det))).r r')
     (hatt : ∀ a ∈ att, epochOf r' a.id = some a.epochRec ∧ (a.isHead = true ↔ a.epochRec.start = a.number))
-    (hcur : b.isHead = true ∨ det ≠ [] ∨ (replay (g :: pre)).m.curEpoch = some b.epochRec) :
+    (hcur : b.isHead = true ∨ det ≠ [] ∨ att.length > 1 ∨ (replay (g :: pre)).m.curEpoch = some b.epochRec) :
     (commitBest ⟨(replay (g :: (pre ++ det))).m, r'⟩ b det att).m = (replay (g :: (pre ++ att))).m := by
   obtain ⟨hpre, hdet⟩ := validChain_append hwf.2
   have hcV : CellsConsistent (replay (g :: pre)).m (replay (g :: pre)).r :=
@@ -183,7 +189,7 @@ theorem reorg_eq_replay (g : Block) (pre det att : List Block) (b : Block) (r' :
   have hrr : (rollback ⟨(attachAll V det).m, r'⟩ det.reverse).r = r' := by simp
   rw [reconcile_m, hrr, hrb, attachAllM_withTC, attachAll_m V att b hlast,
     attachAllM_congr (fun b => epochOf r' b.id) V.m att hatt]
-  by_cases hcond : (b.isHead || !det.isEmpty) = true
+  by_cases hcond : (b.isHead || !det.isEmpty || decide (att.length > 1)) = true
   · simp only [hcond, if_true]; rfl
   · simp only [hcond]
     have hb : b.isHead = false := by
@@ -192,10 +198,15 @@ theorem reorg_eq_replay (g : Block) (pre det att : List Block) (b : Block) (r' :
       cases det with
       | nil => rfl
       | cons d ds => simp [hb] at hcond
+    have hl : ¬ att.length > 1 := by
+      intro hgt
+      apply hcond
+      simp [hgt]
     subst hd
-    rcases hcur with h | h | h
+    rcases hcur with h | h | h | h
     · rw [hb] at h; cases h
     · exact absurd rfl h
+    · exact absurd h hl
     · simp only [attachAll] at *
       apply Main.ext' <;> try rfl
       exact h
@@ -210,8 +221,69 @@ theorem attach_replay (g : Block) (pre : List Block) (b : Block) (r' : Recs)
     (commitBest ⟨(replay (g :: pre)).m, r'⟩ b [] [b]).m = (replay (g :: (pre ++ [b]))).m := by
   have := reorg_eq_replay g pre [] [b] b r' (by simpa using hwf) rfl (by simpa using hext)
     (by intro a ha; simp at ha; subst ha; exact hb)
-    (by rcases hcur with h | h; exact Or.inl h; exact Or.inr (Or.inr h))
+    (by rcases hcur with h | h; exact Or.inl h; exact Or.inr (Or.inr (Or.inr h)))
   simpa using this
+
+/-- the current-epoch row of a replayed chain is the epoch of its last block -/
+theorem replay_curEpoch (g : Block) (pre : List Block) (l : Block) (hl : (g :: pre).getLast? = some l) :
+    (replay (g :: pre)).m.curEpoch = some l.epochRec := by
+  cases pre with
+  | nil =>
+    simp at hl; subst hl; rfl
+  | cons p ps =>
+    have hl' : (p :: ps).getLast? = some l := by simpa [List.getLast?_cons_cons] using hl
+    simp only [replay]
+    rw [attachAll_m (init g) (p :: ps) l hl']
+    rfl
+
+/-- **The stored current epoch follows the main chain** (since the repair of finding F12).  For
+every commit of a new best block — extension, reorganisation of any depth, or the re-attachment of
+several blocks after a truncation — the whole view *including the META current-epoch row* is the
+replay of the new main chain, and that row is the new tip's epoch.  The only thing assumed about
+epochs is continuity for a plain one-block extension inside an epoch (`hcont`: a block that does
+not open an epoch has its parent's epoch record — a consensus rule, C07); the `hcur` side
+condition of `reorg_eq_replay` is discharged. -/
+theorem current_epoch_follows_main_chain (g : Block) (pre det att : List Block) (b : Block) (r' : Recs)
+    (hwf : WellFormed g (pre ++ det))
+    (hlast : att.getLast? = some b)
+    (hext : RecsLe (replay (g :: (pre ++ det))).r r')
+    (hatt : ∀ a ∈ att, epochOf r' a.id = some a.epochRec ∧ (a.isHead = true ↔ a.epochRec.start = a.number))
+    (hcont : b.isHead = false → det = [] → att = [b] →
+      ∀ p, (g :: pre).getLast? = some p → p.epochRec = b.epochRec) :
+    (commitBest ⟨(replay (g :: (pre ++ det))).m, r'⟩ b det att).m = (replay (g :: (pre ++ att))).m ∧
+    (commitBest ⟨(replay (g :: (pre ++ det))).m, r'⟩ b det att).m.curEpoch = some b.epochRec := by
+  have hcur : b.isHead = true ∨ det ≠ [] ∨ att.length > 1 ∨ (replay (g :: pre)).m.curEpoch = some b.epochRec := by
+    by_cases h1 : b.isHead = true
+    · exact Or.inl h1
+    by_cases h2 : det = []
+    · by_cases h3 : att.length > 1
+      · exact Or.inr (Or.inr (Or.inl h3))
+      · refine Or.inr (Or.inr (Or.inr ?_))
+        have hatt1 : att = [b] := by
+          cases att with
+          | nil => simp at hlast
+          | cons a as =>
+            cases as with
+            | nil => simp at hlast; rw [hlast]
+            | cons a2 as2 => simp at h3
+        have hb : b.isHead = false := by cases h : b.isHead <;> simp_all
+        obtain ⟨p, hp⟩ : ∃ p, (g :: pre).getLast? = some p := by
+          cases h : (g :: pre).getLast? with
+          | none => simp at h
+          | some p => exact ⟨p, rfl⟩
+        rw [replay_curEpoch g pre p hp, hcont hb h2 hatt1 p hp]
+    · exact Or.inr (Or.inl h2)
+  have h := reorg_eq_replay g pre det att b r' hwf hlast hext hatt hcur
+  refine ⟨h, ?_⟩
+  rw [h]
+  apply replay_curEpoch
+  cases att with
+  | nil => simp at hlast
+  | cons a as =>
+    have : (g :: (pre ++ a :: as)).getLast? = (a :: as).getLast? := by
+      rw [← List.cons_append, List.getLast?_append]
+      simp [hlast]
+    rw [this, hlast]
 
 /-- a block that is not a new best block leaves the whole main-chain view untouched
 (side-chain insertion) -/
@@ -285,6 +357,8 @@ def b8 : Block := { id := 8, parent := 6, number := 4, epoch := ⟨1, 1, 3⟩, t
 def b9 : Block := { id := 9, parent := 8, number := 5, epoch := ⟨1, 2, 3⟩, txs := [cb 1005], uncles := [], isHead := false, epochRec := ⟨1, 3, 3, 5⟩ }
 def afterReorg : View := process (process afterFork b8) b9
 def afterTruncExtend : View := process (truncate main4 2) b7
+/-- the same history with the pre-repair current-epoch write condition (finding F12) -/
+def afterTruncExtendPre : View := PreF12.process (truncate main4 2) b7
 end Witness
 
 open Witness in
@@ -311,14 +385,26 @@ theorem epoch_number_row_follows_main_chain :
   decide
 
 open Witness in
-/-- **F12.** `truncate` to block 2 (epoch 0), then block 7 on top of the cut-off block 4: blocks 3, 4
-are re-attached across the epoch boundary with nothing detached and a tip that is not an epoch head,
-so the current-epoch row stays at epoch 0 while the replay of `g,1,2,3,4,7` has epoch 1.  (Every
-other column equals the replay; this is exactly the case excluded by `hcur` in `reorg_eq_replay`.) -/
-theorem current_epoch_stale_after_truncate :
-    afterTruncExtend.m.tip = some 7 ∧
-    afterTruncExtend.m.curEpoch = some ⟨0, 0, 3, 99⟩ ∧
+/-- **F12, before the repair (regression witness about `Store.PreF12`).** `truncate` to block 2
+(epoch 0), then block 7 on top of the cut-off block 4: blocks 3, 4 are re-attached across the epoch
+boundary with nothing detached and a tip that is not an epoch head, so with the old condition
+`new_epoch || fork.has_detached()` the current-epoch row stayed at epoch 0 while the replay of
+`g,1,2,3,4,7` has epoch 1.  (Every other column equalled the replay.) -/
+theorem current_epoch_stale_after_truncate_prefix :
+    afterTruncExtendPre.m.tip = some 7 ∧
+    afterTruncExtendPre.m.curEpoch = some ⟨0, 0, 3, 99⟩ ∧
     (replay [g, b1, b2, b3, b4, b7]).m.curEpoch = some ⟨1, 3, 3, 2⟩ := by
+  decide
+
+open Witness in
+/-- **F12, after the repair** (`|| fork.attached_blocks().len() > 1`, /repo commit 1f10d03): on the
+same history three blocks are attached at once, the row is rewritten and equals the replay's (an
+instance of `current_epoch_follows_main_chain`). -/
+theorem current_epoch_after_truncate_extend :
+    afterTruncExtend.m.tip = some 7 ∧
+    afterTruncExtend.m.curEpoch = some ⟨1, 3, 3, 2⟩ ∧
+    (replay [g, b1, b2, b3, b4, b7]).m.curEpoch = some ⟨1, 3, 3, 2⟩ ∧
+    afterTruncExtend.m.index 5 = some 7 ∧ afterTruncExtend.m.epochNum 1 = some 2 := by
   decide
 
 /-! ### non-vacuity: the hypotheses are satisfiable by a chain with a spend and a reorg -/
@@ -384,5 +470,747 @@ example (hwf : WellFormed g [b1]) (r' : Recs) (hle : RecsLe (replay [g, b1]).r r
     (commitBest ⟨(replay [g, b1]).m, r'⟩ b2 [b1] [b2]).m = (replay [g, b2]).m :=
   reorg_eq_replay g [] [b1] [b2] b2 r' hwf rfl hle
     (by intro a ha; simp at ha; subst ha; exact ⟨hrec, by decide⟩) (Or.inr (Or.inl (by simp)))
+
+
+/-! ### C02.5 — `find_fork` computes the right lists
+
+`Model/Fork.lean` follows `find_fork` / `alignment_fork` / `find_fork_until_latest_common`
+statement by statement.  `Fork.WF s cur newTip` is what the code's `expect`s assume: the new tip is
+not genesis, numbers decrease by one along its parent path down to the genesis block, the main
+chain `s.mainAt 0 ..= cur` is parent-linked and numbered.  `Fork.ancAt s x h` is the ancestor of
+`x` at height `h`. -/
+
+/-- **(a)** In all three alignment cases (new tip lower / equal / higher than the current tip — the
+statement does not distinguish them) there is a height `c` which is that of the *latest common
+ancestor* (`ancAt c = main[c]`, and no higher proper ancestor of the new tip is on the main chain),
+and `find_fork` returns `detached = main[c+1 ..= cur]` and `attached =` the ancestors of the new
+tip at heights `c+1 ..= number newTip` (the new tip last), both ascending, both parent-linked
+starting at the common ancestor, with consecutive numbers; in particular `is_sorted_assert`
+cannot fire. -/
+theorem find_fork_lists (s : Fork.Store) (cur newTip : Nat) (wf : Fork.WF s cur newTip) :
+    ∃ c, c ≤ cur ∧ c < s.number newTip ∧
+      Fork.ancAt s newTip c = s.mainAt c ∧
+      (∀ h, c < h → h ≤ cur → h < s.number newTip → Fork.ancAt s newTip h ≠ s.mainAt h) ∧
+      (Fork.findFork s cur newTip).detached = (List.range' (c + 1) (cur - c)).map s.mainAt ∧
+      (Fork.findFork s cur newTip).attached =
+        (List.range' (c + 1) (s.number newTip - c)).map (Fork.ancAt s newTip) ∧
+      Fork.Linked s (s.mainAt c) (Fork.findFork s cur newTip).detached ∧
+      Fork.Linked s (s.mainAt c) (Fork.findFork s cur newTip).attached ∧
+      (Fork.findFork s cur newTip).detached.map s.number = List.range' (c + 1) (cur - c) ∧
+      (Fork.findFork s cur newTip).attached.map s.number = List.range' (c + 1) (s.number newTip - c) ∧
+      (Fork.findFork s cur newTip).isSorted s = true := by
+  obtain ⟨c, d, sp⟩ := Fork.findFork_spec s cur newTip wf
+  have hK : s.number newTip - c ≤ s.number newTip := by omega
+  have hlo : s.number newTip + 1 - (s.number newTip - c) = c + 1 := by have := sp.c_lt; omega
+  have hnumA : (Fork.findFork s cur newTip).attached.map s.number = List.range' (c + 1) (s.number newTip - c) := by
+    rw [sp.attached, Fork.ancList_numbers s newTip _ wf.branch_num hK, hlo]
+  have hnumD : (Fork.findFork s cur newTip).detached.map s.number = List.range' (c + 1) (cur - c) := by
+    rw [sp.detached]
+    exact Fork.mainSeg_numbers s cur wf.main_num (c + 1) (cur - c) (by have := sp.c_le_cur; omega)
+  refine ⟨c, sp.c_le_cur, sp.c_lt, sp.common, sp.latest, sp.detached, ?_, ?_, ?_, hnumD, hnumA, ?_⟩
+  · rw [sp.attached, Fork.ancList_eq_map s newTip _ hK, hlo]
+  · rw [sp.detached]
+    exact Fork.linked_mainSeg s cur wf.main_link c (cur - c) (by have := sp.c_le_cur; omega)
+  · rw [sp.attached, ← sp.common]
+    exact Fork.linked_ancList s newTip _
+  · simp only [Fork.ForkChanges.isSorted, Bool.and_eq_true]
+    exact ⟨Fork.sortedByKey_of_range _ _ _ _ hnumA, Fork.sortedByKey_of_range _ _ _ _ hnumD⟩
+
+/-- the ordinary case: a new tip whose parent is the current tip — nothing is detached and the
+new tip alone is attached (with its own ext as the only dirty ext) -/
+theorem find_fork_extension (s : Fork.Store) (cur newTip : Nat) (wf : Fork.WF s cur newTip)
+    (hpar : s.parent newTip = s.mainAt cur) (hnum : s.number newTip = cur + 1) :
+    Fork.findFork s cur newTip = { attached := [newTip], detached := [], dirtyExts := [newTip] } := by
+  obtain ⟨c, d, sp⟩ := Fork.findFork_spec s cur newTip wf
+  have hc : c = cur := by
+    by_cases h : c < cur
+    · exfalso
+      apply sp.latest cur h (Nat.le_refl _) (by omega)
+      unfold Fork.ancAt
+      have : s.number newTip - cur = 1 := by omega
+      rw [this]
+      exact hpar
+    · have := sp.c_le_cur; omega
+  subst hc
+  have hK : s.number newTip - c = 1 := by omega
+  have hd : d = 1 := by have := sp.d_pos; have := sp.d_le; omega
+  have h1 := sp.attached
+  have h2 := sp.detached
+  have h3 := sp.dirty
+  rw [hK] at h1
+  rw [hd] at h3
+  have h0 : c - c = 0 := by omega
+  rw [h0] at h2
+  generalize Fork.findFork s c newTip = fk at *
+  cases fk
+  simp only at h1 h2 h3
+  subst h1 h2 h3
+  rfl
+
+/-- **(b)** The lists satisfy the hypotheses of `reorg_eq_replay`: there is a common prefix `pre`
+with `genesis :: pre ++ detached = ` the old main chain and `genesis :: pre ++ attached = ` the
+parent path from genesis to the new tip; and on the number → hash index, deleting the detached
+blocks newest first (`rollback`) and writing the attached ones oldest first
+(`reconcile_main_chain`) turns the old main chain's index into exactly that parent path. -/
+theorem find_fork_new_main (s : Fork.Store) (cur newTip : Nat) (wf : Fork.WF s cur newTip) :
+    (∃ pre,
+      s.mainAt 0 :: (pre ++ (Fork.findFork s cur newTip).detached) = (List.range' 0 (cur + 1)).map s.mainAt ∧
+      s.mainAt 0 :: (pre ++ (Fork.findFork s cur newTip).attached) =
+        (List.range' 0 (s.number newTip + 1)).map (Fork.ancAt s newTip)) ∧
+    Fork.applyFork s (Fork.mainIndex s cur) (Fork.findFork s cur newTip) =
+      Fork.branchIndex s newTip (s.number newTip) := by
+  obtain ⟨c, d, sp⟩ := Fork.findFork_spec s cur newTip wf
+  have hcc := sp.c_le_cur
+  have hcN := sp.c_lt
+  have hbelow := Fork.common_below s cur newTip wf c hcc (by omega) sp.common
+  have hK : s.number newTip - c ≤ s.number newTip := by omega
+  have hlo : s.number newTip + 1 - (s.number newTip - c) = c + 1 := by omega
+  refine ⟨⟨Fork.mainSeg s 1 c, ?_, ?_⟩, ?_⟩
+  · rw [sp.detached]
+    have h1 : s.mainAt 0 :: Fork.mainSeg s 1 c = Fork.mainSeg s 0 (c + 1) := (Fork.mainSeg_succ s 0 c).symm
+    rw [← List.cons_append, h1]
+    have h2 := Fork.mainSeg_append s 0 (c + 1) (cur - c)
+    have e1 : 0 + (c + 1) = c + 1 := by omega
+    have e2 : c + 1 + (cur - c) = cur + 1 := by omega
+    rw [e1, e2] at h2
+    exact h2
+  · rw [sp.attached, Fork.ancList_eq_map s newTip _ hK, hlo]
+    have h1 : s.mainAt 0 :: Fork.mainSeg s 1 c = (List.range' 0 (c + 1)).map (Fork.ancAt s newTip) := by
+      rw [← Fork.mainSeg_succ s 0 c]
+      unfold Fork.mainSeg
+      apply List.map_congr_left
+      intro h hh
+      rw [List.mem_range'_1] at hh
+      exact (hbelow h (by omega)).symm
+    rw [← List.cons_append, h1, ← List.map_append]
+    have h2 : List.range' 0 (c + 1) ++ List.range' (c + 1) (s.number newTip - c) = List.range' 0 (s.number newTip + 1) := by
+      have := @List.range'_append_1 0 (c + 1) (s.number newTip - c)
+      have e1 : 0 + (c + 1) = c + 1 := by omega
+      have e2 : c + 1 + (s.number newTip - c) = s.number newTip + 1 := by omega
+      rw [e1, e2] at this
+      exact this
+    rw [h2]
+  · unfold Fork.applyFork
+    rw [sp.detached, sp.attached]
+    have h1 := Fork.rollbackIndex_mainSeg s cur wf.main_num c (cur - c) (by omega)
+    have e1 : c + (cur - c) = cur := by omega
+    rw [e1] at h1
+    rw [h1]
+    have h2 : Fork.mainIndex s c = Fork.branchIndex s newTip (s.number newTip - (s.number newTip - c)) := by
+      funext n
+      have e2 : s.number newTip - (s.number newTip - c) = c := by omega
+      simp only [Fork.mainIndex, Fork.branchIndex, e2]
+      by_cases hn : n ≤ c
+      · simp [hn, hbelow n hn]
+      · simp [hn]
+    rw [h2]
+    exact Fork.attachIndex_ancList s newTip wf.branch_num _ hK
+
+/-- **(c), structural half — holds with no assumption on the `verified` flags.**  `dirty_exts` is a
+suffix of `attached_blocks`: `attached = attached.take verified_len ++ dirty_exts`, the usize
+subtraction of `verified_len` does not underflow, and
+`dirty_exts.zip(attached.skip(verified_len))` pairs every collected ext with the block it was read
+for (its OWN block).  It consists of the new tip's ext and the exts of the new tip's nearest
+ancestors read with `verified == None`, stopping at the first ancestor whose ext is verified. -/
+theorem dirty_exts_suffix (s : Fork.Store) (cur newTip : Nat) (wf : Fork.WF s cur newTip) :
+    (Fork.findFork s cur newTip).dirtyExts.length ≤ (Fork.findFork s cur newTip).attached.length ∧
+    1 ≤ (Fork.findFork s cur newTip).dirtyExts.length ∧
+    (Fork.findFork s cur newTip).dirtyExts =
+      (Fork.findFork s cur newTip).attached.drop (Fork.findFork s cur newTip).verifiedLen ∧
+    (Fork.findFork s cur newTip).attached =
+      (Fork.findFork s cur newTip).verifiedPrefix ++ (Fork.findFork s cur newTip).dirtyExts ∧
+    (Fork.findFork s cur newTip).dirtyPairs =
+      (Fork.findFork s cur newTip).dirtyExts.map (fun x => (x, x)) ∧
+    (∀ a ∈ (Fork.findFork s cur newTip).dirtyExts, a = newTip ∨ s.verNone a = true) := by
+  obtain ⟨c, d, sp⟩ := Fork.findFork_spec s cur newTip wf
+  have hlenA : (Fork.findFork s cur newTip).attached.length = s.number newTip - c := by
+    rw [sp.attached, Fork.ancList_length]
+  have hlenD : (Fork.findFork s cur newTip).dirtyExts.length = d := by
+    rw [sp.dirty, Fork.ancList_length]
+  have hv : (Fork.findFork s cur newTip).verifiedLen = s.number newTip - c - d := by
+    simp only [Fork.ForkChanges.verifiedLen, hlenA, hlenD]
+  have hdrop : (Fork.findFork s cur newTip).dirtyExts =
+      (Fork.findFork s cur newTip).attached.drop (Fork.findFork s cur newTip).verifiedLen := by
+    rw [hv, sp.attached, sp.dirty, Fork.ancList_drop s newTip d _ sp.d_le]
+  refine ⟨by rw [hlenA, hlenD]; exact sp.d_le, by rw [hlenD]; exact sp.d_pos, hdrop, ?_, ?_, ?_⟩
+  · simp only [Fork.ForkChanges.verifiedPrefix]
+    rw [hdrop]
+    exact (List.take_append_drop _ _).symm
+  · simp only [Fork.ForkChanges.dirtyPairs]
+    rw [← hdrop]
+    exact Fork.zip_self _
+  · intro a ha
+    rw [sp.dirty, Fork.mem_ancList] at ha
+    obtain ⟨j, hj, rfl⟩ := ha
+    by_cases h0 : j = 0
+    · subst h0; exact Or.inl rfl
+    · exact Or.inr (sp.dirty_none j (by omega) hj)
+
+/-- **(c)** Under the pipeline's invariant that "`ext.verified ≠ None`" is ancestor-closed along
+the new branch (C01 proves it: a block is verified only after its parent), and with the new tip's
+own ext unverified (it is the ext `verify_block` has just built), `dirty_exts` is *exactly* the
+list of attached blocks whose ext is unverified, in ascending order; it equals the suffix
+`attached.drop verified_len`, every `(ext, block)` pair of
+`dirty_exts.zip(attached.skip(verified_len))` is an ext with ITS OWN block, the blocks
+re-attached without verification (`attached.take verified_len`) all have a verified ext, and so
+every attached block is handled exactly once, by the right loop. -/
+theorem dirty_exts_aligned (s : Fork.Store) (cur newTip : Nat) (wf : Fork.WF s cur newTip)
+    (hnew : s.verNone newTip = true)
+    (hclosed : ∀ j, 1 ≤ j → s.verNone (Fork.anc s newTip j) = false →
+      s.verNone (Fork.anc s newTip (j + 1)) = false) :
+    (Fork.findFork s cur newTip).dirtyExts = (Fork.findFork s cur newTip).attached.filter s.verNone ∧
+    (Fork.findFork s cur newTip).dirtyExts =
+      (Fork.findFork s cur newTip).attached.drop (Fork.findFork s cur newTip).verifiedLen ∧
+    (∀ p ∈ (Fork.findFork s cur newTip).dirtyPairs, p.1 = p.2) ∧
+    (Fork.findFork s cur newTip).dirtyPairs.map (·.2) = (Fork.findFork s cur newTip).attached.filter s.verNone ∧
+    (∀ a ∈ (Fork.findFork s cur newTip).verifiedPrefix, s.verNone a = false) ∧
+    Fork.sortedByKey s.number (Fork.findFork s cur newTip).dirtyExts = true := by
+  obtain ⟨hlen, hpos, hdrop, happ, hpairs, hmem⟩ := dirty_exts_suffix s cur newTip wf
+  obtain ⟨c, d, sp⟩ := Fork.findFork_spec s cur newTip wf
+  have htrue : ∀ j, j < d → s.verNone (Fork.anc s newTip j) = true := by
+    intro j hj
+    by_cases h0 : j = 0
+    · subst h0; exact hnew
+    · exact sp.dirty_none j (by omega) hj
+  have hfalse : ∀ j, d ≤ j → j < s.number newTip - c → s.verNone (Fork.anc s newTip j) = false := by
+    intro j h1 h2
+    rcases sp.dirty_stop with h | ⟨_, h⟩
+    · omega
+    · exact Fork.closed_from s newTip d hclosed sp.d_pos h j h1
+  have hfilter : (Fork.findFork s cur newTip).dirtyExts = (Fork.findFork s cur newTip).attached.filter s.verNone := by
+    rw [sp.attached, sp.dirty, Fork.filter_ancList s newTip d htrue _ hfalse sp.d_le]
+  refine ⟨hfilter, hdrop, ?_, ?_, ?_, ?_⟩
+  · intro p hp
+    rw [hpairs, List.mem_map] at hp
+    obtain ⟨a, _, rfl⟩ := hp
+    rfl
+  · rw [← hfilter, hpairs, List.map_map]
+    exact List.map_id _
+  · intro a ha
+    -- `a` is in the prefix, hence not in the filtered suffix, hence verified
+    simp only [Fork.ForkChanges.verifiedPrefix] at ha
+    have hv : (Fork.findFork s cur newTip).verifiedLen = s.number newTip - c - d := by
+      simp only [Fork.ForkChanges.verifiedLen, sp.attached, sp.dirty, Fork.ancList_length]
+    rw [hv, sp.attached] at ha
+    obtain ⟨i, hi, hget⟩ := List.mem_iff_getElem.mp ha
+    rw [List.length_take, Fork.ancList_length] at hi
+    rw [List.getElem_take] at hget
+    -- element `i` of `ancList K` is `anc (K-1-i)`
+    have hidx : ∀ (K i : Nat) (h : i < (Fork.ancList s newTip K).length),
+        (Fork.ancList s newTip K)[i] = Fork.anc s newTip (K - 1 - i) := by
+      intro K
+      induction K with
+      | zero => intro i h; simp [Fork.ancList] at h
+      | succ K ih =>
+        intro i h
+        cases i with
+        | zero => simp [Fork.ancList]
+        | succ i =>
+          simp only [Fork.ancList, List.getElem_cons_succ]
+          rw [ih i (by simpa [Fork.ancList] using h)]
+          congr 1
+          have : i < K := by simpa [Fork.ancList, Fork.ancList_length] using h
+          omega
+    rw [hidx] at hget
+    rw [← hget]
+    exact hfalse _ (by omega) (by omega)
+  · rw [sp.dirty]
+    exact Fork.sortedByKey_of_range _ _ _ _
+      (Fork.ancList_numbers s newTip d wf.branch_num (by have := sp.d_le; omega))
+
+/-! #### the same statements on a concrete tree: non-vacuity, the three alignment cases, and the
+`push_back` mutation
+
+```
+main chain  0 ← 1 ← 2 ← 3                 (cur = 3)
+side branch     1 ← 4 ← 5 ← 6 ← 7 ← 8     (numbers 2 … 6; 4, 5 verified, 6, 7, 8 not)
+``` -/
+namespace ForkExample
+
+def s : Fork.Store where
+  parent := fun x => match x with
+    | 1 => 0 | 2 => 1 | 3 => 2 | 4 => 1 | 5 => 4 | 6 => 5 | 7 => 6 | 8 => 7 | _ => 0
+  number := fun x => match x with
+    | 0 => 0 | 1 => 1 | 2 => 2 | 3 => 3 | 4 => 2 | 5 => 3 | 6 => 4 | 7 => 5 | 8 => 6 | _ => 0
+  mainAt := fun n => n
+  verNone := fun x => x ≥ 6
+
+/-- `alignment_fork`'s else-branch with `dirty_exts.push_back(ext)` instead of `push_front(ext)` -/
+def alignUpBack (s : Fork.Store) (cur : Nat) : Nat → Fork.ForkChanges → Fork.GlobalIndex →
+    Fork.ForkChanges × Fork.GlobalIndex
+  | 0, f, i => (f, i)
+  | fuel + 1, f, i =>
+    if i.number > cur then
+      let (f, i) :=
+        if i.unseen then
+          if s.verNone i.hash then ({ f with dirtyExts := f.dirtyExts ++ [i.hash] }, i)
+          else (f, { i with unseen := false })
+        else (f, i)
+      alignUpBack s cur fuel { f with attached := i.hash :: f.attached } (i.forward (s.parent i.hash))
+    else (f, i)
+
+/-- `find_fork` over the mutated `alignment_fork` -/
+def findForkBack (s : Fork.Store) (cur newTip : Nat) : Fork.ForkChanges :=
+  let n := s.number newTip
+  let f : Fork.ForkChanges := { dirtyExts := [newTip], attached := [newTip], detached := [] }
+  let i : Fork.GlobalIndex := ⟨n - 1, s.parent newTip, true⟩
+  let (f, i) := if n ≤ cur then (Fork.alignDown s f n (cur + 1 - n), i) else alignUpBack s cur i.number f i
+  (Fork.untilCommon s i.number f i).1
+
+end ForkExample
+
+open ForkExample in
+/-- the well-formedness hypotheses are satisfiable, for a new tip lower (4), equal (5) and higher
+(8) than the current tip -/
+example : Fork.WF s 3 4 ∧ Fork.WF s 3 5 ∧ Fork.WF s 3 8 := by
+  refine ⟨⟨?_, ?_, ?_, ?_, ?_⟩, ⟨?_, ?_, ?_, ?_, ?_⟩, ⟨?_, ?_, ?_, ?_, ?_⟩⟩ <;> decide
+
+open ForkExample in
+/-- … and the model computes, in the three alignment cases, the lists of `find_fork_lists`
+(common ancestor 1) and the aligned dirty exts of `dirty_exts_aligned` -/
+example :
+    Fork.findFork s 3 4 = { attached := [4], detached := [2, 3], dirtyExts := [4] } ∧
+    Fork.findFork s 3 5 = { attached := [4, 5], detached := [2, 3], dirtyExts := [5] } ∧
+    Fork.findFork s 3 8 = { attached := [4, 5, 6, 7, 8], detached := [2, 3], dirtyExts := [6, 7, 8] } ∧
+    (Fork.findFork s 3 8).verifiedLen = 2 ∧
+    (Fork.findFork s 3 8).dirtyPairs = [(6, 6), (7, 7), (8, 8)] ∧
+    Fork.applyFork s (Fork.mainIndex s 3) (Fork.findFork s 3 8) 3 = some 5 ∧
+    Fork.applyFork s (Fork.mainIndex s 3) (Fork.findFork s 3 4) 3 = none := by
+  decide
+
+open ForkExample in
+/-- the hypotheses of `dirty_exts_aligned` hold on the example -/
+example : s.verNone 8 = true ∧
+    ∀ j, 1 ≤ j → s.verNone (Fork.anc s 8 j) = false → s.verNone (Fork.anc s 8 (j + 1)) = false := by
+  refine ⟨by decide, ?_⟩
+  intro j hj h
+  have h6 : ∀ t, Fork.anc s 8 (6 + t) = 0 := by
+    intro t
+    induction t with
+    | zero => decide
+    | succ t ih => show s.parent (Fork.anc s 8 (6 + t)) = 0; rw [ih]; decide
+  by_cases hj4 : j + 1 < 6
+  · have : j = 1 ∨ j = 2 ∨ j = 3 ∨ j = 4 := by omega
+    rcases this with rfl | rfl | rfl | rfl <;> revert h <;> decide
+  · obtain ⟨t, ht⟩ : ∃ t, j + 1 = 6 + t := ⟨j + 1 - 6, by omega⟩
+    rw [ht, h6]; decide
+
+open ForkExample in
+/-- **Mutation witness.**  Pushing the ext to the *other end* in `alignment_fork`'s else-branch
+(`push_back` instead of `push_front`) leaves `attached`, `detached` and `verified_len` unchanged
+but breaks the alignment: `reconcile_main_chain` would then store block 6's verification result
+in the ext (total difficulty, uncle count) of block 8 and vice versa. -/
+theorem dirty_push_back_misaligns :
+    (findForkBack s 3 8).attached = (Fork.findFork s 3 8).attached ∧
+    (findForkBack s 3 8).detached = (Fork.findFork s 3 8).detached ∧
+    (findForkBack s 3 8).verifiedLen = (Fork.findFork s 3 8).verifiedLen ∧
+    (findForkBack s 3 8).dirtyPairs = [(8, 6), (7, 7), (6, 8)] ∧
+    (Fork.findFork s 3 8).dirtyPairs = [(6, 6), (7, 7), (8, 8)] := by
+  decide
+
+/-! ### C02.7 — `reconcile_main_chain`'s position-based ext handling writes the right records -/
+
+/-- **The per-block verification records after a reorganisation.**  `reconcile_main_chain` does not
+look at a block's ext to decide what to do with it: it attaches `attached.take verified_len` as
+they are and pairs the rest with `dirty_exts` *by position* (`Model/Reconcile.lean`, `reconcileZip`).
+On the lists `find_fork` returns — under the pipeline invariant of `dirty_exts_aligned`, and with
+`extOf x` the ext row of block `x` as stored when `find_fork` ran (`verified == None` exactly for
+the blocks the `find_fork` store calls unverified) — this is the same view *and the same record
+store* as deciding block by block on the block's own stored ext (`Store.reconcile`, which is what
+`reorg_eq_replay` and the `store` stream are about): every block gets `insert_ok_ext` applied to ITS
+OWN ext (accumulated difficulty, uncle count), exactly once, and verified blocks keep theirs. -/
+theorem reconcile_zip_eq_reconcile (s : Fork.Store) (cur newTip : Nat) (wf : Fork.WF s cur newTip)
+    (hnew : s.verNone newTip = true)
+    (hclosed : ∀ j, 1 ≤ j → s.verNone (Fork.anc s newTip j) = false →
+      s.verNone (Fork.anc s newTip (j + 1)) = false)
+    (v : View) (body : Nat → Block) (extOf : Nat → Ext)
+    (hid : ∀ x ∈ (Fork.findFork s cur newTip).attached, (body x).id = x)
+    (hr : ∀ x ∈ (Fork.findFork s cur newTip).attached,
+      v.r.ext x = some (extOf x) ∧ ((extOf x).verified = none ↔ s.verNone x = true)) :
+    reconcileZip v ((Fork.findFork s cur newTip).attached.map body)
+        ((Fork.findFork s cur newTip).dirtyExts.map extOf)
+      = reconcile v ((Fork.findFork s cur newTip).attached.map body) := by
+  obtain ⟨_, _, _, happ, _, _⟩ := dirty_exts_suffix s cur newTip wf
+  obtain ⟨hfilter, _, _, _, hprefix, _⟩ := dirty_exts_aligned s cur newTip wf hnew hclosed
+  obtain ⟨c, d, sp⟩ := Fork.findFork_spec s cur newTip wf
+  generalize Fork.findFork s cur newTip = fk at *
+  have hpm : ∀ x ∈ fk.verifiedPrefix, x ∈ fk.attached := by
+    intro x hx; rw [happ]; exact List.mem_append_left _ hx
+  have hdm : ∀ x ∈ fk.dirtyExts, x ∈ fk.attached := by
+    intro x hx; rw [happ]; exact List.mem_append_right _ hx
+  have hdv : ∀ x ∈ fk.dirtyExts, s.verNone x = true := by
+    intro x hx; rw [hfilter] at hx; exact (List.mem_filter.mp hx).2
+  -- the (ext, block) pairs of the second loop
+  let ps : List (Ext × Block) := fk.dirtyExts.map (fun x => (extOf x, body x))
+  have hps2 : ps.map (·.2) = fk.dirtyExts.map body := by simp [ps, List.map_map, Function.comp_def]
+  have hps1 : ps.map (·.1) = fk.dirtyExts.map extOf := by simp [ps, List.map_map, Function.comp_def]
+  have hblocks : fk.attached.map body = fk.verifiedPrefix.map body ++ ps.map (·.2) := by
+    rw [hps2, ← List.map_append, ← happ]
+  rw [hblocks, ← hps1]
+  apply reconcileZip_eq
+  · intro a ha
+    obtain ⟨x, hx, rfl⟩ := List.mem_map.mp ha
+    right
+    have hxa := hpm x hx
+    rw [hid x hxa]
+    refine ⟨extOf x, (hr x hxa).1, ?_⟩
+    intro hnone
+    have := (hr x hxa).2.mp hnone
+    rw [hprefix x hx] at this
+    cases this
+  · intro p hp
+    obtain ⟨x, hx, rfl⟩ := List.mem_map.mp hp
+    have hxa := hdm x hx
+    show v.r.ext (body x).id = some (extOf x) ∧ (extOf x).verified = none
+    rw [hid x hxa]
+    exact ⟨(hr x hxa).1, (hr x hxa).2.mpr (hdv x hx)⟩
+  · have hids : ps.map (·.2.id) = fk.dirtyExts := by
+      simp only [ps, List.map_map, Function.comp_def]
+      calc List.map (fun x => (body x).id) fk.dirtyExts = List.map id fk.dirtyExts :=
+            List.map_congr_left (fun x hx => hid x (hdm x hx))
+        _ = fk.dirtyExts := List.map_id _
+    rw [hids, sp.dirty]
+    exact ancList_pairwise_ne s newTip wf.branch_num d (by have := sp.d_le; omega)
+
+namespace ForkExample
+/-- blocks of the example tree as store blocks (no transactions) and their stored exts: total
+difficulty = number, blocks 6, 7, 8 unverified -/
+def blk (x : Nat) : Block :=
+  { id := x, parent := s.parent x, number := s.number x, epoch := ⟨0, s.number x, 100⟩, txs := [], uncles := [],
+    isHead := false, epochRec := ⟨0, 0, 100, 99⟩ }
+def extOf (x : Nat) : Ext := ⟨if x ≥ 6 then none else some true, s.number x, 0, []⟩
+def view0 : View := ⟨Main.empty, { Recs.empty with ext := fun x => if x ≤ 8 then some (extOf x) else none }⟩
+end ForkExample
+
+open ForkExample in
+/-- non-vacuity of `reconcile_zip_eq_reconcile`, and what the `push_back` mutation of
+`dirty_push_back_misaligns` does to the records: with the aligned list every block's record keeps
+its own accumulated difficulty (4, 5, 6 for blocks 6, 7, 8); with the reversed `dirty_exts` blocks 6
+and 8 swap theirs -/
+example :
+    let fk := Fork.findFork s 3 8
+    let good := reconcileZip view0 (fk.attached.map blk) (fk.dirtyExts.map extOf)
+    let bad := reconcileZip view0 ((findForkBack s 3 8).attached.map blk) ((findForkBack s 3 8).dirtyExts.map extOf)
+    (good.r.ext 6).map (·.td) = some 4 ∧ (good.r.ext 8).map (·.td) = some 6 ∧
+    (good.r.ext 6).map (·.verified) = some (some true) ∧ (good.r.ext 5).map (·.td) = some 3 ∧
+    (reconcile view0 (fk.attached.map blk)).r.ext 6 = good.r.ext 6 ∧
+    (bad.r.ext 6).map (·.td) = some 6 ∧ (bad.r.ext 8).map (·.td) = some 4 ∧ good.m.index 4 = bad.m.index 4 := by
+  decide
+
+/-! ### C02.6 — the reorganisation theorem with `find_fork`'s lists computed, not given -/
+
+/-! `forkStore body chain ver` (the store `find_fork` sees, read off a block tree), `pathTo` (the
+parent path from genesis, as blocks) and `TreeWF` (the tree's well-formedness) are defined in
+`Lemmas/ForkStore.lean`. -/
+
+/-- **`reorg_eq_replay` with nothing given but the tree, the old main chain and the new tip.**
+For every block tree `body`, every main chain `g :: rest` in it that could be attached block by
+block, and every stored new tip `b` (any branch, lower / equal / higher than the current tip):
+what `verify_block` commits when it runs the *computed* `find_fork` and then rolls back
+`detached` newest first and reconciles `attached` oldest first is exactly the replay of the
+parent path from genesis to `b`.  (`hext`, `hatt`, `hcur` are `reorg_eq_replay`'s hypotheses on the
+record store and on the current-epoch row, stated over the branch; `hcur` is the code's
+`new_epoch || fork.has_detached() || attached.len() > 1`; its last disjunct is epoch continuity for a
+one-block extension, see `current_epoch_follows_main_chain`.) -/
+theorem reorg_via_find_fork_eq_replay (body : Nat → Block) (g : Block) (rest : List Block) (b : Block)
+    (r' : Recs) (ver : Nat → Bool)
+    (htree : TreeWF body g rest b)
+    (hwf : WellFormed g rest)
+    (hext : RecsLe (replay (g :: rest)).r r')
+    (hatt : ∀ k, k ≤ b.number →
+      let a := body (Fork.anc (forkStore body (g :: rest) ver) b.id k)
+      epochOf r' a.id = some a.epochRec ∧ (a.isHead = true ↔ a.epochRec.start = a.number))
+    (hcur : b.isHead = true ∨
+      (Fork.findFork (forkStore body (g :: rest) ver) rest.length b.id).detached ≠ [] ∨
+      (Fork.findFork (forkStore body (g :: rest) ver) rest.length b.id).attached.length > 1 ∨
+      (replay (g :: rest)).m.curEpoch = some b.epochRec) :
+    (commitBest ⟨(replay (g :: rest)).m, r'⟩ b
+        ((Fork.findFork (forkStore body (g :: rest) ver) rest.length b.id).detached.map body)
+        ((Fork.findFork (forkStore body (g :: rest) ver) rest.length b.id).attached.map body)).m
+      = (replay (pathTo (forkStore body (g :: rest) ver) body b.id)).m := by
+  have wf := treeWF_wf htree ver
+  generalize hs : forkStore body (g :: rest) ver = s at *
+  obtain ⟨⟨pre, hdet, hattl⟩, _⟩ := find_fork_new_main s rest.length b.id wf
+  obtain ⟨c, d, sp⟩ := Fork.findFork_spec s rest.length b.id wf
+  generalize hfk : Fork.findFork s rest.length b.id = fk at *
+  -- the old main chain, as blocks
+  have hmain : ((List.range' 0 (rest.length + 1)).map s.mainAt).map body = g :: rest := by
+    rw [← hs]
+    exact map_body_main (chain := g :: rest) ver htree.stored
+  have hold : body (s.mainAt 0) :: (pre.map body ++ fk.detached.map body) = g :: rest := by
+    rw [← hmain, ← hdet]; simp
+  have hg : body (s.mainAt 0) = g := (List.cons.inj hold).1
+  have hrest : pre.map body ++ fk.detached.map body = rest := (List.cons.inj hold).2
+  -- the new main chain, as blocks
+  have hnew : pathTo s body b.id = g :: (pre.map body ++ fk.attached.map body) := by
+    unfold pathTo
+    have hc : (fun h => body (Fork.ancAt s b.id h)) = body ∘ Fork.ancAt s b.id := rfl
+    rw [hc, ← List.map_map, ← hattl, ← hg]; simp
+  -- the new tip is the last attached block
+  have hlast : (fk.attached.map body).getLast? = some b := by
+    rw [sp.attached]
+    obtain ⟨K, hK⟩ : ∃ K, s.number b.id - c = K + 1 := ⟨s.number b.id - c - 1, by have := sp.c_lt; omega⟩
+    rw [hK]
+    have : ∀ K, (Fork.ancList s b.id (K + 1)).getLast? = some b.id := by
+      intro K
+      induction K with
+      | zero => rfl
+      | succ K ih =>
+        show (Fork.anc s b.id (K + 1) :: (Fork.anc s b.id K :: Fork.ancList s b.id K)).getLast? = _
+        rw [List.getLast?_cons_cons]; exact ih
+    rw [List.getLast?_map, this K]
+    simp [htree.tip_stored]
+  rw [hnew]
+  have key := reorg_eq_replay g (pre.map body) (fk.detached.map body) (fk.attached.map body) b r'
+    (by rw [hrest]; exact hwf) hlast (by rw [hrest]; exact hext) ?_ ?_
+  · rw [hrest] at key; exact key
+  · intro a ha
+    rw [sp.attached, List.mem_map] at ha
+    obtain ⟨x, hx, rfl⟩ := ha
+    rw [Fork.mem_ancList] at hx
+    obtain ⟨j, hj, rfl⟩ := hx
+    have hN : s.number b.id = b.number := by rw [← hs]; show (body b.id).number = _; rw [htree.tip_stored]
+    have := hatt j (by have := sp.c_lt; omega)
+    exact this
+  · rcases hcur with h | h | h | h
+    · exact Or.inl h
+    · refine Or.inr (Or.inl ?_)
+      intro hnil
+      exact h (List.map_eq_nil_iff.mp hnil)
+    · exact Or.inr (Or.inr (Or.inl (by rw [List.length_map]; exact h)))
+    · by_cases hnil : fk.detached = []
+      · refine Or.inr (Or.inr (Or.inr ?_))
+        have : pre.map body = rest := by rw [← hrest, hnil]; simp
+        rw [this]; exact h
+      · refine Or.inr (Or.inl ?_)
+        intro hn
+        exact hnil (List.map_eq_nil_iff.mp hn)
+
+
+/-- **The chain-service step of the model, end to end.**  `Store.process` (the function the `store`
+stream is compared with after every block; it finds the fork with its own inlined walk) on the
+replay of any well-formed main chain `g :: rest`, for any stored new block `b` of any branch of
+the tree that has more accumulated work than the tip: the committed view is the replay of the
+parent path from genesis to `b`.  No detached / attached list is an input any more: `process` is
+shown to commit through `Fork.findFork`'s lists (`process_eq_commitBest_findFork`), which are
+correct by `find_fork_lists` / `find_fork_new_main`.  `hnew`: the rows written for `b` itself
+(body, block → epoch, epoch record) do not overwrite different rows (records are per hash). -/
+theorem process_reorg_eq_replay (body : Nat → Block) (g : Block) (rest : List Block) (b : Block)
+    (r : Recs) (ver : Nat → Bool)
+    (htree : TreeWF body g rest b)
+    (hwf : WellFormed g rest)
+    (hext : RecsLe (replay (g :: rest)).r r)
+    (hanc : ∀ k, 1 ≤ k → k ≤ b.number →
+      r.bodies (Fork.anc (forkStore body (g :: rest) ver) b.id k) =
+        some (body (Fork.anc (forkStore body (g :: rest) ver) b.id k)))
+    (hbest : (freshExt (insertBlock r b) b).td > tdOf (insertBlock r b) ((replay (g :: rest)).m.tip.getD 0))
+    (hnew : RecsLe r (recsBest r b))
+    (hatt : ∀ k, k ≤ b.number →
+      let a := body (Fork.anc (forkStore body (g :: rest) ver) b.id k)
+      epochOf (recsBest r b) a.id = some a.epochRec ∧ (a.isHead = true ↔ a.epochRec.start = a.number))
+    (hcur : b.isHead = true ∨
+      (Fork.findFork (forkStore body (g :: rest) ver) rest.length b.id).detached ≠ [] ∨
+      (Fork.findFork (forkStore body (g :: rest) ver) rest.length b.id).attached.length > 1 ∨
+      (replay (g :: rest)).m.curEpoch = some b.epochRec) :
+    (process ⟨(replay (g :: rest)).m, r⟩ b).m
+      = (replay (pathTo (forkStore body (g :: rest) ver) body b.id)).m := by
+  have wf := treeWF_wf htree ver
+  have hN : (forkStore body (g :: rest) ver).number b.id = b.number := by
+    show (body b.id).number = _; rw [htree.tip_stored]
+  have hmain : ∀ n, n ≤ rest.length →
+      r.bodies ((forkStore body (g :: rest) ver).mainAt n) = some (body ((forkStore body (g :: rest) ver).mainAt n)) := by
+    intro n hn
+    have hlt : n < (g :: rest).length := by simp; omega
+    have hget : (g :: rest).getD n default = (g :: rest)[n] := by
+      simp [List.getD, List.getElem?_eq_getElem hlt]
+    show r.bodies ((g :: rest).getD n default).id = some (body ((g :: rest).getD n default).id)
+    rw [hget, htree.stored _ (List.getElem_mem hlt)]
+    exact hext.bodies _ _ (replay_bodies g rest hwf.2 _ (List.getElem_mem hlt))
+  have hstep := process_eq_commitBest_findFork ⟨(replay (g :: rest)).m, r⟩ b body
+    (forkStore body (g :: rest) ver) rest.length (fun _ => rfl) (fun _ => rfl) htree.tip_stored wf
+    (replay_index body g rest ver htree.chain_num) (replay_tip body g rest ver)
+    (fun k h1 h2 => hanc k h1 (by rw [hN] at h2; exact h2)) hmain hbest
+  rw [hstep]
+  exact reorg_via_find_fork_eq_replay body g rest b (recsBest r b) ver htree hwf
+    (RecsLe.trans hext hnew) hatt hcur
+
+
+/-- the link used above, restated as a property theorem: on a view whose index / tip are the main
+chain and whose records hold the tree, `Store.process` commits a new best block through exactly
+the lists of the statement-by-statement `find_fork` model -/
+theorem process_runs_find_fork (v : View) (b : Block) (body : Nat → Block) (s : Fork.Store) (cur : Nat)
+    (hpar : ∀ y, s.parent y = (body y).parent) (hnum : ∀ y, s.number y = (body y).number)
+    (hb : body b.id = b) (wf : Fork.WF s cur b.id)
+    (hidx : v.m.index = Fork.mainIndex s cur) (htip : v.m.tip = some (s.mainAt cur))
+    (hanc : ∀ k, 1 ≤ k → k ≤ s.number b.id → v.r.bodies (Fork.anc s b.id k) = some (body (Fork.anc s b.id k)))
+    (hmain : ∀ n, n ≤ cur → v.r.bodies (s.mainAt n) = some (body (s.mainAt n)))
+    (hbest : (freshExt (insertBlock v.r b) b).td > tdOf (insertBlock v.r b) (v.m.tip.getD 0)) :
+    process v b = commitBest ⟨v.m, recsBest v.r b⟩ b
+      ((Fork.findFork s cur b.id).detached.map body) ((Fork.findFork s cur b.id).attached.map body) :=
+  process_eq_commitBest_findFork v b body s cur hpar hnum hb wf hidx htip hanc hmain hbest
+
+namespace Example
+/-- a child of the sibling block 2: the branch `g, b2, b3` is heavier than the main chain `g, b1` -/
+def b3 : Block := { id := 3, parent := 2, number := 2, epoch := ⟨0, 2, 9⟩, txs := [Witness.cb 1002], uncles := [], isHead := false, epochRec := ⟨0, 0, 9, 99⟩ }
+end Example
+
+open Example in
+/-- non-vacuity of `process_reorg_eq_replay` / `process_runs_find_fork`: with block 2 stored as a
+side block (`process` of it leaves the view untouched), block 3 is a new best block, and the step
+commits the replay of `g, b2, b3` (tip, index, the cells of the re-committed transaction 5, nothing
+left of block 1's transaction 6) -/
+example :
+    let v1 := process (replay [g, b1]) b2
+    let v := process v1 b3
+    v1.m.tip = some 1 ∧
+    (freshExt (insertBlock v1.r b3) b3).td > tdOf (insertBlock v1.r b3) (v1.m.tip.getD 0) ∧
+    v.m.tip = some 3 ∧ v.m.index 1 = some 2 ∧ v.m.index 2 = some 3 ∧ v.m.rindex 1 = none ∧
+    v.m.cells ⟨6, 0⟩ = none ∧ v.m.txInfo 6 = none ∧
+    v.m.cells ⟨5, 0⟩ = (replay [g, b2, b3]).m.cells ⟨5, 0⟩ ∧
+    v.m.cells ⟨5, 1⟩ = (replay [g, b2, b3]).m.cells ⟨5, 1⟩ ∧
+    v.m.curEpoch = (replay [g, b2, b3]).m.curEpoch := by
+  decide
+
+/-- **Truncation with the detached list computed.**  `truncate(target)` for the main-chain block of
+height `k` (`make_fork_for_truncate` lists the main chain above it through the number → hash index;
+the model's `Store.truncate` does the same walk): on the replay of any well-formed chain the result
+is the replay of its first `k + 1` blocks.  (`hep`: the block → epoch index of the target names the
+target's epoch record, as in `truncate_eq_replay`.) -/
+theorem truncate_via_index_eq_replay (body : Nat → Block) (g : Block) (rest : List Block) (r : Recs) (k : Nat)
+    (hk : k ≤ rest.length)
+    (hstored : ∀ blk ∈ g :: rest, body blk.id = blk)
+    (hnum : ∀ n (h : n < (g :: rest).length), ((g :: rest)[n]).number = n)
+    (hwf : WellFormed g rest)
+    (hext : RecsLe (replay (g :: rest)).r r)
+    (hep : (match r.blockEpoch ((g :: rest).getD k default).id with | some e => r.epochExt e | none => none)
+            = (replay (g :: rest.take k)).m.curEpoch) :
+    (truncate ⟨(replay (g :: rest)).m, r⟩ ((g :: rest).getD k default).id).m = (replay (g :: rest.take k)).m := by
+  let s := forkStore body (g :: rest) (fun _ => false)
+  have hidx := replay_index body g rest (fun _ => false) hnum
+  have htipR := replay_tip body g rest (fun _ => false)
+  have hbod : ∀ n, n ≤ rest.length → r.bodies (s.mainAt n) = some (body (s.mainAt n)) := by
+    intro n hn
+    have hlt : n < (g :: rest).length := by simp; omega
+    have hget : (g :: rest).getD n default = (g :: rest)[n] := by
+      simp [List.getD, List.getElem?_eq_getElem hlt]
+    show r.bodies ((g :: rest).getD n default).id = some (body ((g :: rest).getD n default).id)
+    rw [hget, hstored _ (List.getElem_mem hlt)]
+    exact hext.bodies _ _ (replay_bodies g rest hwf.2 _ (List.getElem_mem hlt))
+  have hnumOf : ∀ n, n ≤ rest.length → numberOf r (s.mainAt n) = n := by
+    intro n hn
+    have hlt : n < (g :: rest).length := by simp; omega
+    have hget : (g :: rest).getD n default = (g :: rest)[n] := by
+      simp [List.getD, List.getElem?_eq_getElem hlt]
+    simp only [numberOf, hbod n hn]
+    show (body ((g :: rest).getD n default).id).number = n
+    rw [hget, hstored _ (List.getElem_mem hlt)]
+    exact hnum n hlt
+  -- the chain as blocks, split at height k
+  have hmainB := map_body_main (chain := g :: rest) (fun _ => false) hstored
+  have hsplit : (Fork.mainSeg s 0 (k + 1)).map body ++ (Fork.mainSeg s (k + 1) (rest.length - k)).map body = g :: rest := by
+    rw [← List.map_append]
+    have := Fork.mainSeg_append s 0 (k + 1) (rest.length - k)
+    have e1 : 0 + (k + 1) = k + 1 := by omega
+    have e2 : k + 1 + (rest.length - k) = rest.length + 1 := by omega
+    rw [e1, e2] at this
+    rw [this]
+    exact hmainB
+  have hdet : (Fork.mainSeg s (k + 1) (rest.length - k)).map body = rest.drop k := by
+    have h1 := congrArg (List.drop (k + 1)) hsplit
+    rw [List.drop_left' (by simp [Fork.mainSeg_length])] at h1
+    simpa using h1
+  have hmb := mainBlocks_spec (replay (g :: rest)).m r body s rest.length hidx hbod k (rest.length - k) (by omega)
+  -- unfold `truncate`
+  have htr : truncate ⟨(replay (g :: rest)).m, r⟩ (s.mainAt k) =
+      truncateWith ⟨(replay (g :: rest)).m, r⟩ (s.mainAt k) (rest.drop k) := by
+    simp only [truncate, htipR, Option.getD_some]
+    show truncateWith _ _ (mainBlocks (replay (g :: rest)).m r (numberOf r (s.mainAt k))
+      (numberOf r (s.mainAt rest.length) - numberOf r (s.mainAt k))) = _
+    rw [hnumOf rest.length (Nat.le_refl _), hnumOf k hk, hmb, hdet]
+  show (truncate ⟨(replay (g :: rest)).m, r⟩ (s.mainAt k)).m = _
+  rw [htr]
+  have hrest : rest.take k ++ rest.drop k = rest := List.take_append_drop k rest
+  have hwf' : WellFormed g (rest.take k ++ rest.drop k) := by rw [hrest]; exact hwf
+  have hext' : RecsLe (replay (g :: (rest.take k ++ rest.drop k))).r r := by rw [hrest]; exact hext
+  have htip' : (replay (g :: rest.take k)).m.tip = some (s.mainAt k) := by
+    rw [replay_tip body g (rest.take k) (fun _ => false)]
+    show some ((g :: rest.take k).getD (rest.take k).length default).id = some ((g :: rest).getD k default).id
+    have hl : (rest.take k).length = k := by simp; omega
+    rw [hl]
+    cases k with
+    | zero => rfl
+    | succ k =>
+      simp only [List.getD, List.getElem?_cons_succ]
+      rw [List.getElem?_take]
+      simp
+  have := truncate_eq_replay g (rest.take k) (rest.drop k) r (s.mainAt k) hwf' hext' htip' hep
+  rw [hrest] at this
+  exact this
+
+open Witness in
+/-- non-vacuity of `truncate_via_index_eq_replay` (k = 2 on the five-block chain of the witnesses):
+the hypothesis on the target's epoch record holds and the columns are the replay's -/
+example :
+    let v := replay [g, b1, b2, b3, b4]
+    (match v.r.blockEpoch ([g, b1, b2, b3, b4].getD 2 default).id with | some e => v.r.epochExt e | none => none)
+      = (replay (g :: [b1, b2, b3, b4].take 2)).m.curEpoch ∧
+    (truncate v 2).m.tip = some 2 ∧ (truncate v 2).m.index 3 = none ∧ (truncate v 2).m.index 2 = some 2 ∧
+    (truncate v 2).m.epochNum 1 = none ∧ (truncate v 2).m.curEpoch = (replay [g, b1, b2]).m.curEpoch := by
+  decide
+
+namespace Example
+/-- the block tree of the example: genesis, block 1 and its sibling block 2 -/
+def body (x : Nat) : Block := match x with | 1 => b1 | 2 => b2 | _ => g
+end Example
+
+open Example in
+/-- the tree hypotheses are satisfiable: main chain `g, b1`, new tip the sibling `b2` … -/
+example : TreeWF body g [b1] b2 := by
+  refine ⟨?_, rfl, ?_, ?_, by decide, ?_, by decide⟩
+  · intro blk h
+    simp only [List.mem_cons, List.not_mem_nil, or_false] at h
+    rcases h with rfl | rfl <;> rfl
+  · intro n h
+    have : n = 0 ∨ n = 1 := by simp at h; omega
+    rcases this with rfl | rfl <;> rfl
+  · intro n h
+    have : n = 0 := by simp at h; omega
+    subst this; rfl
+  · intro k hk
+    have : k = 0 ∨ k = 1 := by have : b2.number = 1 := rfl; omega
+    rcases this with rfl | rfl <;> rfl
+
+open Example in
+/-- … the computed `find_fork` detaches block 1 and attaches block 2 (all exts but the new tip's
+verified), the parent path to the new tip is `g, b2` … -/
+example :
+    Fork.findFork (forkStore body [g, b1] (fun x => x == 2)) 1 2 =
+      { attached := [2], detached := [1], dirtyExts := [2] } ∧
+    pathTo (forkStore body [g, b1] (fun x => x == 2)) body 2 = [g, b2] := by
+  decide
+
+open Example in
+/-- … and `reorg_via_find_fork_eq_replay` applies: the commit computed through `find_fork` is the
+replay of `g, b2` -/
+example (hwf : WellFormed g [b1]) (htree : TreeWF body g [b1] b2) (r' : Recs)
+    (hle : RecsLe (replay [g, b1]).r r')
+    (hrec : epochOf r' 2 = some b2.epochRec) (hrec0 : epochOf r' 0 = some g.epochRec) :
+    (commitBest ⟨(replay [g, b1]).m, r'⟩ b2
+        ((Fork.findFork (forkStore body [g, b1] (fun x => x == 2)) 1 2).detached.map body)
+        ((Fork.findFork (forkStore body [g, b1] (fun x => x == 2)) 1 2).attached.map body)).m
+      = (replay [g, b2]).m := by
+  have h := reorg_via_find_fork_eq_replay body g [b1] b2 r' (fun x => x == 2) htree hwf hle
+    (by
+      intro k hk
+      have : k = 0 ∨ k = 1 := by have : b2.number = 1 := rfl; omega
+      rcases this with rfl | rfl
+      · exact ⟨hrec, by decide⟩
+      · exact ⟨hrec0, by decide⟩)
+    (Or.inr (Or.inl (by decide)))
+  have hp : pathTo (forkStore body [g, b1] (fun x => x == 2)) body 2 = [g, b2] := by decide
+  have hid : b2.id = 2 := rfl
+  have hl : [b1].length = 1 := rfl
+  rw [hid, hl, hp] at h
+  exact h
 
 end CkbVerif.C02
